@@ -61,7 +61,19 @@ def _strategy(dll):
                          st.sampled_from([0.02, 0.04, 0.08, 0.15, 0.3]), st.integers(300, 400) if fd else st.integers(60, 120), size,
                          st.lists(st.one_of(send, inbound), max_size=4))
     ops = st.one_of(rnd, rnd, pattern, pattern2)
-    return st.fixed_dictionaries({
+    # third structured shape (whole case): a transfer whose responder misses a data packet and gives up about when the stack's
+    # own T3 expires, window 1, frame writes that take time - both aborts cross on the bus
+    lateoff = st.sampled_from([-0.003, -0.0025, -0.002, -0.0015, -0.001, -0.0007, -0.0005, -0.0003, 0.0, 0.0003])
+    race_ops = st.builds(lambda peer, n, k, off, tail: [{"op": "send", "peer": peer, "kind": "rts", "n": n, "gap": 0.0, "chain": False,
+                                                         "fate": {"f": "ignore_dt", "k": k, "late": 1.25 + off}}] + tail,
+                         st.integers(0, 2), size, st.integers(1, 2), lateoff, st.lists(st.one_of(send, inbound), max_size=4))
+    race = st.fixed_dictionaries({
+        "dll": st.just(dll), "ops": race_ops, "reply_lat": st.sampled_from([[0.001, 0.003], [0.02]]),
+        "sas": st.sampled_from([[0x30, 0x90, 0x91, 0x92], [0x00, 0x90, 0x91, 0x92], [0xFD, 0x7F, 0x80, 0x00]]),
+        "tx_time": st.sampled_from([0.0005, 0.002, 0.002]), "max_cmdt": st.sampled_from([1, 2, 255]), "grants": st.just([1]),
+        "lat": st.fixed_dictionaries({"S": st.lists(st.sampled_from([0.0002, 0.0005, 0.001, 0.0025]), min_size=1, max_size=2)}),
+    })
+    general = st.fixed_dictionaries({
         "dll": st.just(dll), "ops": ops,
         "reply_lat": st.sampled_from([[0.001, 0.003], [0.001, 0.003], [0.02], [0.08]]),
         "sas": st.sampled_from([[0x30, 0x90, 0x91, 0x92], [0x30, 0x90, 0x91, 0x92], [0x00, 0x90, 0x91, 0x92], [0x30, 0x00, 0x01, 0xFD],
@@ -71,6 +83,7 @@ def _strategy(dll):
         "grants": st.lists(st.sampled_from([1, 2, 3, 255]), min_size=1, max_size=3),
         "lat": st.fixed_dictionaries({"S": st.lists(st.sampled_from([0.0002, 0.0005, 0.001, 0.0025]), min_size=1, max_size=2)}),
     })
+    return st.one_of(general, general, general, general, race)
 
 
 class C10:
@@ -82,7 +95,8 @@ class C10:
             "or broadcast with a fate (clean / peer never answers / peer aborts at its k-th grant / k-th data packet lost, optionally followed by the peer's own time-out abort 0.5 / 0.75 / 1.247..1.2503 s later - i.e. "
             "before, while or after the stack transmits its own time-out abort (frame writes take 0..2 ms) - / "
             "final acknowledgement lost), inbound RTS-CTS or BAM session from a peer on any session number 0..15 completed or "
-            "abandoned after 0-2 packets, gaps 0..3.2 s; one send in five is started from inside a receive callback (e.g. the acknowledge notification of the previous "
+            "abandoned after 0-2 packets, gaps 0..3.2 s; one case in five is a structured 'race' (window 1, frame writes of 0.5-2 ms, a responder that misses a data "
+            "packet and gives up around the stack's own T3); one send in five is started from inside a receive callback (e.g. the acknowledge notification of the previous "
             "transfer); a send is issued only when the model has a free pair/slot and must "
             "then return True; finally one transfer per pair (21) or 8 RTS/CTS + 4 BAM (22) are started in one instant and must "
             "all be accepted and decoded intact by the peers, one more must be refused without a frame; non-trivial = history "
